@@ -14,7 +14,8 @@ St0 == [zs |-> <<>>, produced |-> 0]
 Verdict(e, ok, class, kind) == <<e.id, IF ok THEN "ok" ELSE "dev", e.prop, class, IF ok THEN "-" ELSE kind>>
 New1(e) == /\ tst' = [zs |-> Start(e.key, e.iv), produced |-> 0]
            /\ tlast' = Verdict(e, e.outcome = "ok", IF Len(e.key) = 16 /\ Len(e.iv) = 16 /\ FirstRoundBoundary(e.key, e.iv) THEN "new.add31-boundary" ELSE "new", e.outcome)
-ReqClass(e) == IF e.n = 0 THEN "zero-length" ELSE IF tst.produced = 0 THEN "first" ELSE "continued"
+ReqClass(e) == (IF e.n = 0 THEN "zero-length" ELSE IF tst.produced = 0 THEN "first" ELSE "continued")
+               \o (IF "special" \in DOMAIN e /\ e.special = 1 /\ RZero(tst.zs, e.n) THEN ".r-zero" ELSE "")
 \* on a deviation the specification state still advances by n words (resync), so later requests are judged on their own
 Req2(e, r) == /\ tst' = [zs |-> r[2], produced |-> tst.produced + e.n]
               /\ tlast' = Verdict(e, e.outcome = "ok" /\ e.out = r[1], ReqClass(e), IF e.outcome # "ok" THEN e.outcome ELSE "wrong-keystream")
